@@ -35,6 +35,35 @@ CHECKS = {
          "point), deviations rejected; histories of real calls on real objects of every class (PduMC boundary domain + random) are "
          "recorded with field projections before/after and validated by TLC relationally.", "4 C02",
          "TLC model checking of MsgObjectMC + TLC trace validation (PduTrace) of call histories on real objects"),
+ "C03": ("Framing", "exploration",
+         "Framing!Build is the ADU of each of the five framings written from the standards (bit-serial CRC-16, LRC, MBAP, jamod BIN "
+         "escaping). buildPacket of real messages of every class is compared byte-for-byte by TLC; the frame TLC builds for (uid, tid, pdu) "
+         "is handed whole to a fresh real receiver and must be delivered exactly once with its ids; sweeps over all 256 unit ids, "
+         "transaction ids, every data byte value, and computeCRC/computeLRC over arbitrary strings. Reference receivers are model-checked.",
+         "4 C03", "TLC as executable oracle (FramingGen) + TLC trace validation (FramingTrace) + FramingMC"),
+ "C06": ("Framing", "model_checking",
+         "FramingMC: reference TCP/RTU/ASCII receivers under every Feed(k) schedule of streams of pool frames satisfy PrefixOK/Complete; "
+         "deviations (reset on incomplete frame, one frame per call) are rejected. The real framers are fed TLC-built streams of 1-3 "
+         "frames of every message class under every chunking of the short streams and every 1-cut / sampled multi-cut chunking (empty "
+         "reads included) of longer ones; each call is validated by TLC (NoRaise, PrefixOK, Complete).", "4 C06",
+         "TLC model checking over all arrival schedules (FramingMC) + TLC trace validation (FramingTrace) of chunked deliveries"),
+ "C07": ("Framing", "fault_enumeration",
+         "Every single-bit flip, sampled double flips, byte substitutions, deletions, insertions and truncations of TLC-built frames of "
+         "every class on RTU/ASCII/binary/TCP, alone or next to valid frames, are fed to the real framers; TLC checks that every delivered "
+         "message is justified by a slice of the input that is a well-formed frame under the TLA+ CRC/LRC (Justified). FramingMC proves "
+         "the same for the reference receivers under every fault placement and chunking.", "4 C07",
+         "fault enumeration judged by TLC (FramingTrace!Justified) + FramingMC"),
+ "C11": ("Framing", "model_checking",
+         "Safety formulation with ghost offsets: after the last garbage byte plus two maximum-size frames every wholly fed valid frame "
+         "must have been delivered (Resync), and the backlog stays bounded. FramingMC checks it for reference RTU/ASCII receivers over "
+         "all chunkings of garbage prefixes; the real RTU/ASCII/binary framers get garbage (random bytes, delimiters, bad checksum, "
+         "truncated, foreign unit, long byte count) followed by ~800-1500 bytes of valid frames, one or several per read.", "4 C11",
+         "TLC model checking (FramingMC garbage mode) + TLC trace validation (FramingTrace Resync/Backlog)"),
+ "C19": ("Payload", "model_checking",
+         "PayloadMC: all sequences of up to 3 typed fields x 4 byte/word-order combinations (layout inverse, conventional image, register "
+         "image, pointer arithmetic, decoded = added), deviations rejected; ~40k real payloads (MC sequences concretised, edge values of "
+         "every type, random 1-12 field payloads) built and decoded via bytes and via registers, every add/decode validated by TLC.",
+         "4 C19", "TLC model checking (PayloadMC) + TLC trace validation (PayloadTrace)"),
 }
 NA_REASON = "check not built yet in this round (see DESIGN.md section 8 for the order of work); no claim is made"
 ALL = ["C%02d" % i for i in range(1, 21)]
